@@ -251,6 +251,21 @@ class Sample:
                 log.trace(f"[sam] ignoring {pos}: {ref}->{alt}")
                 return pos, None
 
+        def get_indel(pos, ref, alt):
+            mut = get_mut(pos, ref, alt)
+            if mut[1] != "_" and mut not in self.gene.mutations:
+                # Alleles of a multi-allelic record share the longest REF: an indel can carry
+                # trailing bases of another allele and, in a repeat, land to the right of
+                # the database's placement. Try the form without the shared trailing bases.
+                r, a = ref, alt
+                while len(r) > 1 and len(a) > 1 and r[-1] == a[-1]:
+                    r, a = r[:-1], a[:-1]
+                if r != ref:
+                    trimmed = get_mut(pos, r, a)
+                    if trimmed in self.gene.mutations:
+                        return trimmed
+            return mut
+
         def get_muts(pos, ref, alt):
             if len(ref) == len(alt) and len(ref) > 1:  # multi-nucleotide substitution
                 return [
@@ -258,6 +273,8 @@ class Sample:
                     for i in range(len(ref))
                     if ref[i] != alt[i]
                 ]
+            if len(ref) != len(alt):
+                return [get_indel(pos, ref, alt)]
             return [get_mut(pos, ref, alt)]
 
         with pysam.VariantFile(vcf_path) as vcf:  # type: ignore
